@@ -243,6 +243,16 @@ class ScheduleMonitor(O.Monitor):
                 else:
                     if tt.slot_index(r.service_start_date) is None:
                         rep("services-start-only-at-slot-instants", {"node": r.node, "customer": r.id_number, "start": O._num(r.service_start_date)})
+        # interrupted services at pre-emptive schedules / slots: resume / restart / resample bookkeeping against the logged samples
+        if getattr(Q.built, "samples", None):
+            from . import episodes
+
+            def option_of(nid):
+                nd = self.spec["nodes"][nid - 1]
+                if nid not in self.tt or nd.get("prio_preempt") or nd.get("ps"):
+                    return None
+                return nd["servers"].get("preemption") or None
+            episodes.audit(Q, option_of, lambda clause, d: Q.report(self.P, "C12." + clause, "audit", d), self.activity)
         # overtime bookkeeping (non-pre-emptive schedules): node.overtime vs the monitor's own (death - scheduled end)
         if res.aborted:
             return
